@@ -457,6 +457,21 @@ class C16(Prop):
             self.enumerate_all(ctx, cfgj, warm, reqs, cap, eager=data.draw(st.booleans()))
 
         run_given(seed * 1000 + 300 + shard, n_scen, st.data(), scenario)
+        if shard == 6 % nshards:
+            self.fixed_scenarios(ctx, cap)
+
+    def fixed_scenarios(self, ctx, cap):
+        """a few fixed two-request scenarios, every interleaving: a batch that creates a NEW target page in a part of the trie
+        the query's traversal may already have left, cited by a source the traversal reaches late (and the mirror image)"""
+        cfgj = Config(backend="memory", default_rule="domain").to_json()
+        a1, a2 = b"s:http|h:com|h:a|p:1|", b"s:http|h:com|h:a|p:2|"
+        z1, z2 = b"s:http|h:com|h:z|p:8|", b"s:http|h:com|h:z|p:9|"
+        warm = [op_to_json(("links", [(a1, z1), (z2, a2), (a2, a1)]))]
+        new_early, new_late = b"s:http|h:com|h:a|p:0|", b"s:http|h:com|h:z|p:99|"
+        for batch in ([(z2, [new_early, a1])], [(a1, [new_late])], [(z1, [new_early]), (a2, [new_late, z1])]):
+            for q in (("q-network", True, True), ("q-network", False, False), ("q-network-slow", True, True)):
+                self.enumerate_all(ctx, cfgj, warm, [("batch", batch), q], cap, eager=False)
+                ctx.extra["fixed_scenarios"] += 1
 
     def enumerate_all(self, ctx, cfgj, warm, reqs, cap, eager=False):
         """stateless DFS over choice prefixes; every maximal schedule of the two requests is executed from a fresh index"""
@@ -489,6 +504,20 @@ class C16(Prop):
             ctx.extra["scenarios_enumerated_completely"] += 1
         else:
             ctx.extra["scenarios_truncated_at_cap"] += 1
+            if len(reqs) == 2:
+                # the cap cut the enumeration short: add the family "k steps of one request, the other to completion, the rest"
+                for first in (0, 1):
+                    for k in range(0, 16):
+                        choices = [first] * k + [1 - first] * 200
+                        case = Case(self, ctx, Config.from_json(cfgj), None)
+                        try:
+                            for j in warm:
+                                case.step(op_from_json(j))
+                            case.ops.append(("probe", "sched", reqs, choices, eager))
+                            self.run_schedule(case, reqs, choices, default="first", eager=eager)
+                            ctx.extra["split_schedules"] += 1
+                        finally:
+                            case.abort()
 
 
 PROP = C16()
